@@ -155,7 +155,7 @@ Print Assumptions C14_task_workflow_over_class_properties.
 (* a value of the task template is visible only where the workflow is silent about the key *)
 Theorem C14_task_class_lowest_command : forall wf sp cd cv d v st k,
   cmd_resolved wf sp cd cv = Some (d, v) -> cmd_stack wf sp cd cv = Some st ->
-  first_hit k [sp; wf] = None -> assoc k st = first_hit k [d; v].
+  first_hit k [sp; wf] = None -> assoc k st = first_hit k [v; d].
 Proof. exact class_visible_iff_cmd. Qed.
 Print Assumptions C14_task_class_lowest_command.
 
@@ -165,33 +165,36 @@ Theorem C14_task_properties_precedence : forall wf sp cd cv k,
 Proof. exact assoc_prop_stack. Qed.
 Print Assumptions C14_task_properties_precedence.
 
-(* command line: the full statement (class vars over class defaults) is FALSE for the code as
-   it is — BuildTaskCommand wraps the stack that already holds the class defaults over the
-   class vars (finding C14-a) *)
-Theorem C14_task_command_refuted : ~ task_command_statement.
-Proof. exact task_command_refuted. Qed.
-Print Assumptions C14_task_command_refuted.
-
-(* ... it holds for every key that the workflow defines, or that at most one of the two class
-   maps defines, or on which they agree *)
-Theorem C14_task_command_partial : forall wf sp cd cv d v st k,
+(* command line: the same order in full — special > workflow > class vars > class defaults, for
+   every key and every distribution of it (was refuted before fix C14-a: BuildTaskCommand wrapped
+   the stack that already held the class defaults over the class vars) ... *)
+Theorem C14_task_command_precedence : forall wf sp cd cv d v st k,
   cmd_resolved wf sp cd cv = Some (d, v) -> cmd_stack wf sp cd cv = Some st ->
-  (has k (merge wf sp) = true \/ has k d = false \/ has k v = false \/ assoc k d = assoc k v) ->
   assoc k st = first_hit k [sp; wf; v; d].
-Proof. exact cmd_stack_partial. Qed.
-Print Assumptions C14_task_command_partial.
+Proof. exact cmd_stack_precedence. Qed.
+Print Assumptions C14_task_command_precedence.
 
-(* ... and what the command line really sees *)
-Theorem C14_task_command_actual : forall wf sp cd cv d v st k,
+(* ... where d and v are the class defaults resolved against special > workflow and the class
+   vars resolved against special > workflow > resolved class defaults *)
+Theorem C14_task_command_class_resolution : forall wf sp cd cv d v,
+  cmd_resolved wf sp cd cv = Some (d, v) ->
+  eval_map (merge wf sp) cd = Some d /\
+  eval_map (wrapped_and_flattened (merge wf sp) [d]) cv = Some v.
+Proof. exact cmd_resolved_inv. Qed.
+Print Assumptions C14_task_command_class_resolution.
+
+(* ... in particular the case the repair was about: a key the workflow does not define and the
+   class vars do gets the class var, whatever the class defaults say *)
+Theorem C14_task_command_var_over_default : forall wf sp cd cv d v st k x,
   cmd_resolved wf sp cd cv = Some (d, v) -> cmd_stack wf sp cd cv = Some st ->
-  assoc k st = first_hit k [sp; wf; d; v].
-Proof. exact cmd_stack_actual. Qed.
-Print Assumptions C14_task_command_actual.
+  first_hit k [sp; wf] = None -> assoc k v = Some x -> assoc k st = Some x.
+Proof. exact class_var_over_class_default. Qed.
+Print Assumptions C14_task_command_var_over_default.
 
 (* non-vacuity: a three-level path (role, parent, environment) where key a is an empty user
    value at the environment, a non-empty var at the parent and a default at the role; key b
    only a default of the parent, hidden by an empty default of the role; a loadable role whose
-   var references its own default; a task whose class defines a key both ways. *)
+   var references its own default; a task whose class defines a key both ways (the var wins). *)
 Example C14_nonvacuous :
   let a := [97] in let b := [98] in let c := [99] in
   let role := mkLevel [(a, [120]); (b, [])] [] [] in
@@ -209,7 +212,7 @@ Example C14_nonvacuous :
                        [([0; 1], MSet a [122])] = Some vs /\ length vs = 3%nat) /\
   (exists st, cmd_stack (consolidated p) [] [(b, VLit [120]); ([100], VLit [120])]
                         [([100], VLit [121])] = Some st /\
-              assoc [100] st = Some [120] /\ assoc b st = Some []).
+              assoc [100] st = Some [121] /\ assoc b st = Some []).
 Proof.
   vm_compute. repeat split; try reflexivity.
   - eexists. split; reflexivity.
